@@ -274,8 +274,12 @@ class Flow:
             self.calls.append((e.get("callee"), [self.desc(x, env) for x in e.get("args", [])], cond, e.get("l"), e))
         elif k == "MethodCall":
             self.visit(e["recv"], env, cond)
+            acond = cond
+            if e.get("method") in ("then", "then_some") and (e.get("callee") or "").startswith("core::bool::"):
+                # `test.then(|| value)` / `test.then_some(value)`: the value is produced (resp. kept) only when the test holds
+                acond = cond + ((self.desc(e["recv"], env), ("true",), True),)
             for x in e.get("args", []):
-                self.visit(x, env, cond)
+                self.visit(x, env, acond)
             self.calls.append((e.get("callee") or e.get("method"), [self.desc(e["recv"], env)] + [self.desc(x, env) for x in e.get("args", [])], cond, e.get("l"), e))
         elif k == "Ret":
             if "e" in e:
